@@ -1207,7 +1207,7 @@ def calls_of(path, suffix=None):
 
 def root_of(t):
     """strip field / deref / downcast / ref / index projections down to the root term"""
-    while isinstance(t, tuple) and t[0] in ('field', 'deref', 'downcast', 'ref', 'index'):
+    while isinstance(t, tuple) and t[0] in ('field', 'deref', 'downcast', 'ref', 'index', 'cast'):
         t = t[1]
     return t
 
@@ -1220,7 +1220,7 @@ def field_chain(t):
     """names of the field projections from the root outwards, ignoring derefs/refs/downcasts:
     (*self).handle.addr -> ['handle', 'addr']"""
     out = []
-    while isinstance(t, tuple) and t[0] in ('field', 'deref', 'downcast', 'ref'):
+    while isinstance(t, tuple) and t[0] in ('field', 'deref', 'downcast', 'ref', 'cast'):
         if t[0] == 'field':
             out.append(t[2])
         t = t[1]
